@@ -33,6 +33,8 @@ type cfgScn struct {
 	Dup      bool   `json:"dup"`
 	Rule     string `json:"rule"`
 	Sel      string `json:"sel"`
+	Rule2    string `json:"rule2"`
+	Rule2First bool `json:"rule2first"`
 }
 
 type cfgObs struct {
@@ -210,6 +212,22 @@ func init() {
 				var rule *annotations.HttpRule
 				rule, pm, pp, pb = cfgRule(scn.Rule, scn.Sel)
 				topts = append(topts, vanguard.WithRules(rule))
+			}
+			if scn.Rule2 != "none" && scn.Rule2 != "" {
+				r2 := &annotations.HttpRule{Pattern: &annotations.HttpRule_Get{Get: "/cfg/second"}}
+				switch scn.Rule2 {
+				case "nomatch-exact":
+					r2.Selector = "cfg.v1.C.Nope"
+				case "nomatch-prefix":
+					r2.Selector = "nosuch.v1.*"
+				case "good-on-D":
+					r2.Selector = "cfg.v1.D.Do"
+				}
+				if scn.Rule2First {
+					topts = append([]vanguard.TranscoderOption{vanguard.WithRules(r2)}, topts...)
+				} else {
+					topts = append(topts, vanguard.WithRules(r2))
+				}
 			}
 			tc, err := vanguard.NewTranscoder(services, topts...)
 			obs.Accepted = err == nil
